@@ -151,6 +151,15 @@ def handleCache (ks as : String) : String :=
           (s, acc.2 ++ [c])
         | .publish _ _ => (wakeAll s, acc.2)
         | _ => (s, acc.2)) (s0, [])
+    -- a publish for a caller that is not inside its fetch function is not an action of this history
+    let valid := (acts.foldl (fun (acc : Cache.St × Bool) a =>
+        let okA := match a with
+          | .publish t _ => (match acc.1.pcs t with | .fetching _ _ => true | _ => false)
+          | _ => true
+        let s' := Cache.step acc.1 a
+        let s' := match a with | .publish _ _ => wakeAll s' | _ => s'
+        (s', acc.2 && okA)) (s0, true)).2
+    if !valid then "ret=bad-schedule" else
     let s := wakeAll s
     let ret := (List.range n).map fun t => match s.pcs t with
       | .done _ (.ok v) => s!"ok{v}" | .done _ .err => "err" | _ => "stuck"
